@@ -13,17 +13,22 @@ def twin(spec):
     return t
 
 
-def timing_family(props, tier, three_shapes=('chain', 'join')):
+def timing_family(props, tier, three_shapes=('chain', 'join', 'relabel')):
     out = []
     for alg in ALG3:
         out.append(G('two', R_TWO, props, alg=alg))
         out.append(G('two', R_TWO, props, alg=alg, edge=False, machines=[10, 20]))
         for sh in three_shapes:
             out.append(G('three', R_THREE, props, alg=alg, shape=sh))
+    # three observations that may all fall due together on a two-machine cluster (ingest limit above the cluster size)
+    out.append(G('three', [(0, 1), (0, 1), (1, 2), (1, 2), (1, 2), (0, 2), (1, 1), (0, 1)], props, alg='queue', shape='revjoin', machines=[10, 20], max_ingest=3))
+    out.append(G('three', [(0, 1), (0, 1), (1, 2), (1, 2), (1, 2), (0, 2), (1, 1), (0, 1)], props, alg='batch2', shape='revchain', machines=[10, 20, 10], max_ingest=3, ingest=[1, 1, 2]))
     if tier != 'quick':
         for alg in ALG3:
             for sh in ('chain', 'fork', 'join', 'free', 'tri'):
                 out.append(G('three', [(0, 3), (0, 4), (1, 3), (1, 3), (1, 2), (0, 2), (0, 2), (0, 2)], props, T=1500, alg=alg, shape=sh, ingest=[1, 2, 1]))
+            for sh in ('relabel', 'revchain', 'revjoin'):
+                out.append(G('three', [(0, 3), (0, 4), (1, 3), (1, 3), (1, 2), (0, 2), (0, 2), (0, 2)], props, T=1500, alg=alg, shape=sh, machines=[10, 20, 20]))
                 out.append(G('three', [(0, 3), (0, 4), (1, 3), (1, 2), (1, 3), (0, 2), (0, 2), (0, 2)], props, T=1500, alg=alg, shape=sh, machines=[10, 20], max_ingest=1))
     return out
 
@@ -33,6 +38,8 @@ def shards(tier, prop):
     out = []
     if prop in ('C12', 'C13', 'C19', 'C02', 'C03', 'C08'):
         out = timing_family(props, tier)
+        if prop == 'C02':
+            out += [G('two', R_TWO, props, alg=a) for a in ('reserve1', 'reserve2')]
         out.append(G('delay', [(0, 2), (1, 2), (1, 2), (0, 2), (0, 2), (0, 2), (0, 2), (0, 1)], props, alg='batch1'))
     elif prop == 'C17':
         RS = [(0, 2), (0, 2), (0, 2), (0, 2), (0, 2), (0, 2), (0, 2), (0, 2)]
@@ -49,12 +56,15 @@ def shards(tier, prop):
             out.append(G('adv', [(0, 1), (1, 1), (0, 2), (-1, 2), (-1, 2), (-1, 2), (0, 2), (0, 0)], props, honest=honest))
         out.append(G('delay', [(0, 2), (1, 2), (1, 2), (0, 2), (0, 2), (0, 2), (0, 2), (0, 1)], props, alg='queue'))
     elif prop == 'C09':
-        for alg in ('batch1', 'batch2'):
+        for alg in ('batch1', 'batch2', 'reserve2'):
             out.append(G('two', R_TWO, props, alg=alg))
             out.append(G('three', R_THREE, props, alg=alg, shape='join'))
             out.append(G('three', R_THREE, props, alg=alg, shape='free', machines=[10, 20, 10, 10], ingest=[2, 1, 1]))
     elif prop == 'C04':
         out = timing_family(props, tier)
+        # a user algorithm that reserves machines and leaves the release to the Scheduler
+        out += [G('two', R_TWO, props, alg=a) for a in ('reserve1', 'reserve2')]
+        out.append(G('three', R_THREE, props, alg='reserve2', shape='join'))
         out.append(G('delay', [(0, 2), (1, 2), (1, 2), (0, 2), (0, 2), (0, 2), (0, 2), (0, 1)], props, alg='queue'))
         for honest in (True, False):
             out.append(G('adv', [(0, 1), (1, 1), (0, 2), (-1, 2), (-1, 2), (-1, 2), (0, 2), (0, 0)], props, honest=honest))
@@ -70,6 +80,7 @@ def shards(tier, prop):
                 out.append({'module': 'harness.h_sim', 'fn': 'sizes', 'pin': {'alg': alg, 'timing': tm, 'props': props},
                             'cond_timeout': 75 if tier == 'quick' else 3000, 'path_timeout': 90})
     if prop == 'C05':
+        out += timing_family(props, tier, three_shapes=('relabel', 'revjoin'))
         # machine shortage / ingest limit / simultaneous starts (concrete sizes, threshold not crossed)
         for alg in ALG3:
             out.append(G('two', [(0, 2), (1, 2), (1, 2), (0, 2), (0, 2), (1, 2), (1, 2), (5, 5)], props, alg=alg, machines=[10, 20], g1=2))
